@@ -67,8 +67,15 @@ const (
 var failName = []string{"gen", "mid", "leaf"}
 
 // render returns the source files of the project (everything except artefacts).
+// deepDir: two source files with the same base name in sibling directories below a long path;
+// the escaped labels of both are longer than 200 bytes, shorter than a file name may be (255),
+// and differ only near their end (record names must stay distinct however they are shortened)
+var deepDir = "deep/" + strings.Repeat("p", 185)
+
 func (v Vars) render() map[string]string {
 	f := map[string]string{}
+	f[deepDir+"/x/config.h"] = "cx\n"
+	f[deepDir+"/y/config.h"] = "cy\n"
 	f["dawn.toml"] = "name = \"p\"\n"
 	f["src/a.txt"] = fmt.Sprintf("a%d\n", v.A)
 	f["pkg/b.txt"] = fmt.Sprintf("b%d\n", v.B)
@@ -137,7 +144,7 @@ func (v Vars) render() map[string]string {
     step("gen")
     emit("gen/g.txt", "g:" + slurp("src/a.txt") + ":" + str(helper(0)) + ":" + str(LATE))
     emit("out/gen.side", "side")
-target(name="gen", function=_gen, sources=["src/a.txt"], generates=["gen/g.txt"]__ALWAYS__)
+target(name="gen", function=_gen, sources=["src/a.txt", "__DEEP__/x/config.h", "__DEEP__/y/config.h"], generates=["gen/g.txt"]__ALWAYS__)
 def _mid(t):
     step("mid")
     emit("out/mid", "mid:" + slurp("gen/g.txt") + ":" + listing("dir") + ":" + str(G[1]) + ":" + str(closure(1)) + ":" + "".join(ORD.keys()))
@@ -168,7 +175,7 @@ def _top(t):
 	if v.AlwaysGen {
 		alw = ", always=True"
 	}
-	f["BUILD.dawn"] = strings.ReplaceAll(b.String(), "__ALWAYS__", alw)
+	f["BUILD.dawn"] = strings.ReplaceAll(strings.ReplaceAll(b.String(), "__ALWAYS__", alw), "__DEEP__", deepDir)
 
 	var p strings.Builder
 	if v.C3 {
